@@ -73,7 +73,7 @@ func gen(w *kit.Out, r *kit.Rand, tier string) {
 	rep := []string{"s:pn", "v:sp", "s:kl"}
 	repCall := []string{"s:pn"}
 	if tier == "thorough" {
-		rep = []string{"s:pn", "s:px", "s:mk", "s:ap", "k:px", "v:sp", "v:me", "s:ow", "s:kl", "s:km", "s:cs"}
+		rep = []string{"s:pn", "s:px", "s:mk", "s:ap", "k:px", "v:sp", "v:me", "s:ow", "s:kl", "s:km", "s:cs", "s:qm", "s:qr"}
 		repCall = []string{"s:pn", "s:mk", "k:px", "v:me", "s:kl", "s:ow"}
 	}
 	per = 0
